@@ -236,6 +236,15 @@ int main(int argc, char** argv) {
         } catch (e) { ax = exc_name(e); }
       }
       ev_s("]"); ev_int("hasasg", has); ev_str("asgexc", ax);
+      /* copy: a copy of a view (any of the five kinds) iterates like the view */
+      ev_key("cpy"); ev_s("["); has = 0; ax = "";
+      if (!nofail && (ty == Range || ty == Slice || ty == Zip || ty == Filter || ty == Map)) {
+        try {
+          w = copy(v); has = 1;
+          size_t k = 0; var it = iter_init(w); while (it != Terminal && k < lim) { if (k) ev_s(","); item(it); k++; it = iter_next(w, it); }
+        } catch (e) { ax = exc_name(e); has = 2; }
+      }
+      ev_s("]"); ev_int("hascpy", has); ev_str("cpyexc", ax);
       /* show: a Range / Slice of Ints lists its items between brackets, in iteration order */
       ev_key("shown"); ev_s("["); has = 0;
       if (!nofail && unit == 1 && (ty == Range || ty == Slice)) {
